@@ -17,7 +17,8 @@ for sid in sorted(os.listdir(os.path.join(ROOT, "seeded"))):
     what = m.get("breaks") or m.get("origin", "")
     rows.append((sid, m["property"], what, m.get("needs_to_manifest", ""), ", ".join(det) or "—", ", ".join(missed) or "—"))
 out = ["# Seeded changes and which checks catch them", "",
-       "`<PROP>-s<k>`: written by an independent sub-agent that saw only the property text and a scratch worktree;",
+       "`<PROP>-s<k>` / `-r<k>` / `-t<k>` / `-u<k>` / `-v<k>` (rounds one to five): written by independent sub-agents that saw only the property text",
+       "(from the second round on also the list of earlier mechanisms to avoid) and a scratch worktree;",
        "`D<nn>`: the pinned snapshot's own defects (reverse of the `fix:` commits). Every change compiles and passes the",
        "106 baseline tests; each was confirmed with `tools/seed_verify.sh` (demo fails with / passes without the patch).",
        "Results from `tools/seedtest.py` (quick tier, seed 1).", "",
